@@ -34,6 +34,10 @@ def run_one(entry, kind):
         if src.count(old) < 1:
             return (mid, kind, 'ANCHOR-MISSING', '')
         src = src.replace(old, new, 1)
+        for (o2, n2) in (entry[5] if len(entry) > 5 else []):
+            if src.count(o2) < 1:
+                return (mid, kind, 'ANCHOR-MISSING', '')
+            src = src.replace(o2, n2, 1)
         open(p, 'w').write(src)
         res = {}
         for pid in props:
